@@ -7,6 +7,7 @@ import (
 	"iter"
 	"reflect"
 	"runtime"
+	"sort"
 )
 
 // vchan is the virtual state of a registered channel.
@@ -15,6 +16,7 @@ type vchan struct {
 	cap    int
 	buf    []any
 	closed bool
+	seq    int // registration order (deterministic map iteration over channel keys)
 }
 
 func chanKey(ch any) uintptr {
@@ -34,7 +36,8 @@ func Reg[C any](ch C) C {
 	}
 	k := chanKey(ch)
 	s.mu.Lock()
-	s.chans[k] = &vchan{keep: ch, cap: reflect.ValueOf(ch).Cap()}
+	s.chanSeq++
+	s.chans[k] = &vchan{keep: ch, cap: reflect.ValueOf(ch).Cap(), seq: s.chanSeq}
 	s.mu.Unlock()
 	return ch
 }
@@ -235,6 +238,17 @@ func (s *Sched) selectOp(kind string, hasDef bool, cases []Case) int {
 		}
 		if len(ready) == 0 {
 			op.chosen = -1 // default
+			if s.cfg.Fair && self != nil {
+				sig := fmt.Sprint("default", len(cases))
+				for _, c := range cases {
+					sig += fmt.Sprint(" ", c.key(), c.isSend())
+				}
+				if sig == self.selSig {
+					self.spin++
+				} else {
+					self.selSig, self.spin = sig, 0
+				}
+			}
 			return
 		}
 		pick := 0
@@ -242,6 +256,25 @@ func (s *Sched) selectOp(kind string, hasDef bool, cases []Case) int {
 			if s.lookup(cases[i].key()) == nil && cases[i].mustTake() {
 				ready = []int{ready[j]}
 				break
+			}
+		}
+		if s.cfg.Fair && self != nil {
+			sig := fmt.Sprint(len(cases), hasDef, ready)
+			for _, c := range cases {
+				sig += fmt.Sprint(" ", c.key(), c.isSend())
+			}
+			if op.arrived {
+				self.selSig, self.spin = "", 0 // the thread really blocked: not a busy-wait iteration
+			} else if sig == self.selSig {
+				self.spin++
+				for j, i := range ready {
+					if i == self.selLast && len(ready) > 1 {
+						ready = append(append([]int{}, ready[j+1:]...), ready[:j+1]...) // round-robin default
+						break
+					}
+				}
+			} else {
+				self.selSig, self.spin = sig, 0
 			}
 		}
 		if len(ready) > 1 {
@@ -255,6 +288,9 @@ func (s *Sched) selectOp(kind string, hasDef bool, cases []Case) int {
 			}
 		}
 		op.chosen = ready[pick]
+		if self != nil {
+			self.selLast = op.chosen
+		}
 		s.doCase(self, cases[op.chosen])
 	}
 	s.mu.Lock()
@@ -442,4 +478,68 @@ func SendTo[T any](ch chan<- T) func(T) { return func(v T) { Send(ch, v) } }
 
 func SndTo[T any](ch chan<- T) func(T) *SendCase[T] {
 	return func(v T) *SendCase[T] { return Snd(ch, v) }
+}
+
+// RangeMap implements `for k, v := range m` (harness.json "detmaps": true;
+// maps keyed by strings, integers or channels only). Under the scheduler the
+// entries are visited in a deterministic order (keys ascending; channels in
+// registration order), so that an execution is a function of its recorded
+// choices; entries deleted before they are reached are skipped and entries
+// added during the iteration are not visited, both as the language allows.
+// In passthrough it is the native iteration.
+func RangeMap[M ~map[K]V, K comparable, V any](m M) iter.Seq2[K, V] {
+	return func(yield func(K, V) bool) {
+		s := S
+		if s == nil {
+			for k, v := range m {
+				if !yield(k, v) {
+					return
+				}
+			}
+			return
+		}
+		keys := make([]K, 0, len(m))
+		for k := range m {
+			keys = append(keys, k)
+		}
+		rank := func(k K) (int64, uint64, string) {
+			v := reflect.ValueOf(k)
+			switch v.Kind() {
+			case reflect.String:
+				return 0, 0, v.String()
+			case reflect.Int, reflect.Int8, reflect.Int16, reflect.Int32, reflect.Int64:
+				return v.Int(), 0, ""
+			case reflect.Uint, reflect.Uint8, reflect.Uint16, reflect.Uint32, reflect.Uint64, reflect.Uintptr:
+				return 0, v.Uint(), ""
+			case reflect.Chan:
+				s.mu.Lock()
+				vc := s.lookup(chanKey(k))
+				s.mu.Unlock()
+				if vc != nil {
+					return int64(vc.seq), 0, ""
+				}
+			}
+			return 0, 0, ""
+		}
+		sort.SliceStable(keys, func(i, j int) bool {
+			a1, a2, a3 := rank(keys[i])
+			b1, b2, b3 := rank(keys[j])
+			if a1 != b1 {
+				return a1 < b1
+			}
+			if a2 != b2 {
+				return a2 < b2
+			}
+			return a3 < b3
+		})
+		for _, k := range keys {
+			v, ok := m[k]
+			if !ok {
+				continue
+			}
+			if !yield(k, v) {
+				return
+			}
+		}
+	}
 }
